@@ -1,18 +1,69 @@
 """Per-property configuration of the checks."""
 
 TB_COMMON = [
-    "Coq 8.16.1 kernel + coqc; vm_compute for evaluating models/specs on cases; no native_compute",
-    "no axioms declared by the development (grep gate); Print Assumptions output recorded in this file",
-    "hand-written Gallina model tied to /repo by differential runs of the real Go code (harness built from /repo's working tree with -tags verif); generator reach bounds the tie",
-    "Go runtime/stdlib, int overflow at 2^63 out of scope",
+    "Coq 8.16.1 kernel + coqc (full .vo build); vm_compute for evaluating models/specs on cases; no native_compute",
+    "no axioms declared by the development (grep gate on every run); Print Assumptions output of every property theorem recorded in this file",
+    "hand-written Gallina model tied to /repo by differential runs of the real Go code (harness built from /repo's working tree with -tags verif) on generated inputs; generator reach bounds the tie",
+    "translator /verif/translate (Go AST -> coq/Extracted.v) trusted to read constants; Go runtime/stdlib trusted; int overflow at 2^63 out of scope",
 ]
 
+PROC_TB = TB_COMMON + [
+    "processor family: the detector's verdict per frame is observed through RecordingListener.MotionDetected and fed to the model as an input bit; "
+    "frames carry their id in two border pixels through an injected FrameParser; sinks are scripted recorder.Recorder implementations; "
+    "window.Window.Now is injected (the real window library answers)",
+]
+PROC_RULE = ("event lists (20-200 accepted frames; motion bits from a run-length grammar with runs of trigger-1/trigger/trigger+1, gaps of min-1/min/min+1, "
+             "sustained motion past max, re-triggers within pre-trigger reach; bad frames, resets, test-recording requests; window boundaries; fps in {1,2,3,9}, "
+             "preview 0-3 s, trigger 0-4, min 0-3 s, max min..5 s) run through the real MotionProcessor.Process; %s; "
+             "non-trivial = at least two motion recordings; distinct by configuration + event/motion string")
+
+
+def proc(corr, harness, thm, faults):
+    return {"stages": [{"harness": harness, "corr": corr, "n": {"quick": 220, "thorough": 4000}, "shard": 20}],
+            "theorems": thm, "rule": PROC_RULE % faults, "trusted_base": PROC_TB}
+
+
+DET_TB = TB_COMMON + [
+    "detector family: float32/float64 arithmetic modelled bit-exactly with the standard library's SpecFloat (binary32/binary64, round-to-nearest-even); "
+    "Go's float conversions uint16->float, float64->uint16 (truncation) and math.Max/Min on non-NaN values trusted to be IEEE-754; "
+    "detector internals (threshold, background, weights) read through the verif hook",
+]
+DET_RULE = ("frame streams (8-35 events) on grids 5x4..12x9 (dynamic threshold: 5x4..7x6), edge 0-2, gap 1-5, all four one-diff/warmer-only combinations, "
+            "delta in {0,1,10,50,200}, count 1-4, pixel values planted at temp-thresh-1/=/+1, +delta-1/=/+1, 0 and 65535, FFC events (periods of 1-10 frames), resets; %s; "
+            "non-trivial = the stream has both motion and no-motion verdicts; distinct by configuration + verdict/shape string")
+
+
+def det(corr, harness, thm, what):
+    return {"stages": [{"harness": harness, "corr": corr, "n": {"quick": 200, "thorough": 4000}, "shard": 20}],
+            "theorems": thm, "rule": DET_RULE % what, "trusted_base": DET_TB}
+
+
+THR_TB = TB_COMMON + [
+    "throttle: juju/ratelimit v1.0.1 modelled line by line (currentTick, adjustavailableTokens with its early return, takeAvailable, available); "
+    "NewBucketWithRateAndClock's float search for (quantum, fillInterval) is NOT modelled: the three integers are read from the real bucket through the verif hook, "
+    "and the one fact used about them (rate_ok: at most 1.010000001 x the configured rate) is checked in exact integer arithmetic on every case; "
+    "ratelimit.Clock is injected; clock assumed non-decreasing (monotone); int64 overflow of (tick-latestTick)*quantum out of scope",
+]
+THR_RULE = ("request schedules (40-180 calls) from a grammar (idle gaps of 0, fi-1, fi, fi+1, k*fi+-1, full-refill idles; triggers of 0, minlen+-1, cap+-2, cap+minlen+ frames; "
+            "clock read twice per restarting write) with bucket 1-60 s, refill 1 s..2 h, min+preview 1-15 s, fps 1-9, base-recorder failures 0-20 %%; 1 in 8 schedules is an arbitrary "
+            "(non-conforming) call sequence; %s; non-trivial = at least one 'throttled' event and one forwarded frame; distinct by parameters + base-call string")
+
 PROPS = {
+    "C01": proc("corr.C01", "PROC", "props/C01.v", "refused starts and stop failures on the motion sink, no write faults; compared projection: motion-sink starts/stops/ids; spec S01 && S02"),
+    "C02": proc("corr.C02", "PROC", "props/C02.v", "refused starts and stop failures, no write faults; compared projection: motion-sink starts/stops/ids; spec S02 (first id of every recording)"),
+    "C03": proc("corr.C03", "PROC", "props/C03.v", "refused starts and stop failures, no write faults; compared projection: per event started/stopped; spec S03 (stop iff position >= limit)"),
+    "C04": proc("corr.C04", "PROC", "props/C04.v", "refused starts at every gate; compared projection: window consultations, gate calls, stops; spec S04; the real window library is run next to window_active"),
+    "C05": {"stages": [{"harness": "THROTTLE", "corr": "corr.C05", "n": {"quick": 200, "thorough": 5000}, "shard": 18}],
+            "theorems": "props/C05.v", "rule": THR_RULE % "spec: all O(n^2) windows of forwarded-write timestamps within cap+1+q*(floor((b-a)/fi)+1), cap = bucket frames, minlen = (min+preview)*fps, rate_ok",
+            "trusted_base": THR_TB},
+    "C06": {"stages": [{"harness": "THROTTLE", "corr": "corr.C06", "n": {"quick": 200, "thorough": 5000}, "shard": 18}],
+            "theorems": "props/C06.v", "rule": THR_RULE % "spec S06 (transparent / paired / cut length / one event) on conforming schedules",
+            "trusted_base": THR_TB},
     "C19": {
         "harness": "C19", "corr": "corr.C19", "n": {"quick": 400, "thorough": 6000},
         "theorems": "props/C19.v",
-        "rule": "random op sequences over {put,move,mark,reset} for capacities 1..9 run on the real FrameLoop; "
-                "non-trivial = the ring wrapped at least once AND a mark or reset occurred; distinct by (size, op-kind string)",
+        "rule": "random op sequences over {put,move,mark,reset} for capacities 1..9 run on the real FrameLoop (weights favouring wrap-1/=/+1, marks at every phase, Reset, "
+                "moves without put); non-trivial = the ring wrapped at least once AND a mark or reset occurred; distinct by (size, op-kind string)",
         "trusted_base": TB_COMMON + ["frames are tagged by a sequence number in two pixels; CreateCopy/copy of pixel rows trusted"],
     },
     "C20": {
@@ -24,30 +75,4 @@ PROPS = {
         "trusted_base": TB_COMMON + ["messages are identified by small integers (injective map to the strings the harness prints); fmt.Sprintf and log.Print trusted; "
                                      "the captured line must equal the message byte for byte (observation code 2 otherwise)"],
     },
-    "C01": {"stages": [{"harness": "PROC", "corr": "corr.C01", "n": {"quick": 300, "thorough": 4000}, "shard": 25}],
-            "theorems": "props/C19.v", "rule": "x", "trusted_base": TB_COMMON},
-    "C02": {"stages": [{"harness": "PROC", "corr": "corr.C02", "n": {"quick": 300, "thorough": 4000}, "shard": 25}],
-            "theorems": "props/C19.v", "rule": "x", "trusted_base": TB_COMMON},
-    "C03": {"stages": [{"harness": "PROC", "corr": "corr.C03", "n": {"quick": 300, "thorough": 4000}, "shard": 25}],
-            "theorems": "props/C19.v", "rule": "x", "trusted_base": TB_COMMON},
-    "C04": {"stages": [{"harness": "PROC", "corr": "corr.C04", "n": {"quick": 300, "thorough": 4000}, "shard": 25}],
-            "theorems": "props/C19.v", "rule": "x", "trusted_base": TB_COMMON},
-    "C12": {"stages": [{"harness": "PROCFAULT", "corr": "corr.C12", "n": {"quick": 300, "thorough": 4000}, "shard": 25}],
-            "theorems": "props/C19.v", "rule": "x", "trusted_base": TB_COMMON},
-    "C13": {"stages": [{"harness": "PROCFAULT", "corr": "corr.C13", "n": {"quick": 300, "thorough": 4000}, "shard": 25}],
-            "theorems": "props/C19.v", "rule": "x", "trusted_base": TB_COMMON},
-    "C17": {"stages": [{"harness": "PROC", "corr": "corr.C17", "n": {"quick": 300, "thorough": 4000}, "shard": 25}],
-            "theorems": "props/C19.v", "rule": "x", "trusted_base": TB_COMMON},
-    "C05": {"stages": [{"harness": "THROTTLE", "corr": "corr.C05", "n": {"quick": 300, "thorough": 5000}, "shard": 25}],
-            "theorems": "props/C19.v", "rule": "x", "trusted_base": TB_COMMON},
-    "C06": {"stages": [{"harness": "THROTTLE", "corr": "corr.C06", "n": {"quick": 300, "thorough": 5000}, "shard": 25}],
-            "theorems": "props/C19.v", "rule": "x", "trusted_base": TB_COMMON},
-    "C07": {"stages": [{"harness": "DET07", "corr": "corr.C07", "n": {"quick": 200, "thorough": 4000}, "shard": 20}],
-            "theorems": "props/C19.v", "rule": "x", "trusted_base": TB_COMMON},
-    "C08": {"stages": [{"harness": "DET08", "corr": "corr.C08", "n": {"quick": 200, "thorough": 4000}, "shard": 20}],
-            "theorems": "props/C19.v", "rule": "x", "trusted_base": TB_COMMON},
-    "C09": {"stages": [{"harness": "DET09", "corr": "corr.C09", "n": {"quick": 200, "thorough": 4000}, "shard": 20}],
-            "theorems": "props/C19.v", "rule": "x", "trusted_base": TB_COMMON},
-    "C15": {"stages": [{"harness": "DET15", "corr": "corr.C15", "n": {"quick": 200, "thorough": 4000}, "shard": 20}],
-            "theorems": "props/C19.v", "rule": "x", "trusted_base": TB_COMMON},
 }
